@@ -135,7 +135,15 @@ func (s *state) unmarshal(data []byte, fixItem fix.Item) error {
 		}
 
 		cnt := noKv.Value.Value().(int)
-		startNoTag := bytes.Index(data, append([]byte(noKv.Key), '='))
+		// The count tag is recognised only where a field starts:
+		// at the beginning of the data or right after a delimiter.
+		noTagQuery := append([]byte(noKv.Key), '=')
+		startNoTag := -1
+		if bytes.HasPrefix(data, noTagQuery) {
+			startNoTag = 0
+		} else if i := bytes.Index(data, append([]byte{1}, noTagQuery...)); i != -1 {
+			startNoTag = i + 1
+		}
 		if startNoTag == -1 {
 			return nil
 		}
